@@ -947,5 +947,8 @@ func (x *Exec) coverBudget(label string) bool {
 		x.coverN = map[string]int{}
 	}
 	x.coverN[label]++
-	return x.coverN[label] <= 2
+	// every path gets its query (which of them are feasible is not known here: the first ones
+	// may be exactly the paths the precondition rules out); the solver stage asks them one at a
+	// time per label and stops at the first satisfiable one
+	return x.coverN[label] <= 12
 }
